@@ -152,7 +152,7 @@ class C08(Prop):
     ID = "C08"
     SOURCES = ["src/pylife/materiallaws/woehlercurve.py", "src/pylife/utils/functions.py",
                "src/pylife/strength/fatigue.py"]
-    LEAN_MODULES = ["Proofs.C08"]
+    LEAN_MODULES = ["Proofs.C08", "Proofs.BridgeC08"]
     THEOREMS = [
         "PylifeVerif.C08.load_cycles_inverse",
         "PylifeVerif.C08.cycles_load_inverse",
@@ -176,7 +176,8 @@ class C08(Prop):
         "PylifeVerif.C08.std_range_literals",
         "PylifeVerif.C08.validate_scatter_consistent",
         "PylifeVerif.C08.broadcast_elementwise",
-    ]
+    ] + ["PylifeVerif.Bridge." + t for t in [      # generated (translated) definitions = hand model
+        "scattering_range_to_std_eq", "std_to_scattering_range_eq", "miner_k2_eq"]]
     PARTIAL = {}
     RULE = ("case kinds: 'curve' = one curve (k_1>1; k_2 missing/inf/=k_1/=2k_1-1/>k_1; SD, ND log-uniform or round; "
             "TN/TS missing, one given, both, consistent; native failure probability missing or in (0,1)) x 2-4 target "
@@ -194,6 +195,28 @@ class C08(Prop):
         "C08: pandas glue (accessor copy, _validate, broadcast to Series/DataFrame, index alignment) is modelled as element-wise map / cross product / zip and checked by correspondence and by the scalar-vs-broadcast oracle only",
         "C08: loads and cycle numbers are positive; for load <= 0 the code returns inf/NaN without raising (outside the theorems' guards)",
     ]
+
+    # tie T (DESIGN 1.1): lean/Generated/<name>.lean are regenerated from the current python source before the build;
+    # Proofs.BridgeC08 proves them equal to the hand model the property theorems are about
+    TRANSLATED = ["Functions", "WoehlerCurve"]
+
+    def setup(self, log):
+        import os
+        import sys
+        tdir = os.path.join(core.VERIF, "translate")
+        sys.path.insert(0, tdir)
+        try:
+            import translate as T
+            ok, msg = T.run_modules(self.TRANSLATED, core.REPO, core.LEAN)
+        except Exception as e:      # the translator itself is broken: every bridge obligation counts as broken
+            ok, msg = False, f"translator crashed: {type(e).__name__}: {e}"
+            for n in self.TRANSLATED:
+                with open(os.path.join(core.LEAN, "Generated", n + "Status.lean"), "w") as f:
+                    f.write('#eval (throw (IO.userError "translator crashed") : IO Unit)\n')
+        finally:
+            sys.path.remove(tdir)
+        self.stats["translator"] = msg
+        log(("translator: " + msg) if ok else ("TRANSLATOR FAILED (broken proof obligation): " + msg))
 
     def __init__(self):
         self.exhaustive = False
